@@ -12,6 +12,7 @@ import (
 	"sort"
 	"strconv"
 	"strings"
+	"unsafe"
 )
 
 type Map = map[string]any
@@ -50,20 +51,40 @@ func CopyMap(m map[string]any) map[string]any {
 // float64, typed slices/maps of plain values become []any / map[string]any, a nil slice becomes an
 // empty []any. Values that are not plain data (pointers, funcs, engine wrapper types) are left as
 // they are so that comparisons fail on them and TypeWalk can report them.
-func Norm(v any) any {
+func Norm(v any) any { return norm(v, map[uintptr]bool{}) }
+
+// TooDeep replaces a back-reference (a map or slice that contains itself) so that normalisation
+// terminates; it is never equal to plain data.
+type TooDeep struct{}
+
+func norm(v any, onPath map[uintptr]bool) any {
 	switch t := v.(type) {
 	case nil:
 		return nil
 	case map[string]any:
+		p := reflect.ValueOf(t).Pointer()
+		if onPath[p] {
+			return TooDeep{}
+		}
+		onPath[p] = true
+		defer delete(onPath, p)
 		m := make(map[string]any, len(t))
 		for k, x := range t {
-			m[k] = Norm(x)
+			m[k] = norm(x, onPath)
 		}
 		return m
 	case []any:
+		if len(t) > 0 {
+			p := uintptr(unsafe.Pointer(&t[0]))
+			if onPath[p] {
+				return TooDeep{}
+			}
+			onPath[p] = true
+			defer delete(onPath, p)
+		}
 		s := make([]any, len(t))
 		for i, x := range t {
-			s[i] = Norm(x)
+			s[i] = norm(x, onPath)
 		}
 		return s
 	case string, bool, float64:
@@ -95,12 +116,12 @@ func Norm(v any) any {
 	switch rv.Kind() {
 	case reflect.Slice, reflect.Array:
 		// only typed slices of plain element kinds (e.g. []string from DATERANGE)
-		if rv.Type().PkgPath() != "" {
+		if rv.Type().PkgPath() != "" || rv.Type().Elem().Kind() == reflect.Interface {
 			return v
 		}
 		s := make([]any, rv.Len())
 		for i := 0; i < rv.Len(); i++ {
-			s[i] = Norm(rv.Index(i).Interface())
+			s[i] = norm(rv.Index(i).Interface(), onPath)
 		}
 		return s
 	}
@@ -284,7 +305,7 @@ outer:
 func JSON(v any) string {
 	b, err := json.Marshal(v)
 	if err != nil {
-		return fmt.Sprintf("%#v", v)
+		return fmt.Sprintf("<not JSON-serialisable: %v>", err)
 	}
 	return string(b)
 }
